@@ -30,6 +30,8 @@ Fixed rewriting rules (the ONLY edits to sliced text; each use is recorded):
   R4 attributes dropped except derive(kept subset); doc comments dropped
   R5 call renamings requested by `rename`
   R6 ghost iterator name / named return value
+  R7 (`assoc` sub-directive, trait-impl fns only) the fn is emitted as a free function: `Self::Name<..>` is replaced by the
+     definition `type Name<..> = ...;` found in the SAME impl block and `Self` by the impl's self type (Verus has no GATs)
 """
 import re, sys, os, json, hashlib
 
@@ -475,6 +477,45 @@ def find_loops(body):
     return res
 
 
+def rule_assoc(src_obj, containers, fn_start, text, log, name):
+    """R7: substitute the associated types of the enclosing trait impl by their definitions in that impl"""
+    hdr = containers[-1].strip()
+    blocks = [(pos, ob, cb) for pos, ob, cb in find_impls(src_obj.src, src_obj.b, 0, len(src_obj.src), hdr) if ob < fn_start < cb]
+    if not blocks:
+        raise LostAnchor(f'{name}: enclosing impl `{hdr}` not found for assoc')
+    pos, ob, cb = blocks[0]
+    flat = re.sub(r'<[^<>]*>', '', hdr)
+    m = re.search(r'\bfor\s+(.+)$', hdr)
+    if not m or ' for ' not in (' ' + flat + ' '):
+        raise LostAnchor(f'{name}: assoc needs a trait impl')
+    self_ty = m.group(1).strip()
+    region_b = src_obj.b[ob + 1:cb]
+    region = src_obj.src[ob + 1:cb]
+    defs = {}
+    depth = 0
+    for mm in re.finditer(r'\btype\s+(\w+)\s*(<[^=]*>)?\s*=\s*', region_b):
+        if region_b.count('{', 0, mm.start()) != region_b.count('}', 0, mm.start()):
+            continue
+        end = region_b.find(';', mm.end())
+        params = [x.strip() for x in (mm.group(2) or '<>')[1:-1].split(',') if x.strip()]
+        defs[mm.group(1)] = (params, region[mm.end():end].strip())
+    def sub_assoc(mo):
+        nm = mo.group(1)
+        if nm not in defs:
+            return mo.group(0)
+        params, rhs = defs[nm]
+        args = [x.strip() for x in (mo.group(2) or '<>')[1:-1].split(',') if x.strip()]
+        out = rhs
+        for pa, ar in zip(params, args):
+            if pa != ar:
+                out = re.sub(re.escape(pa) + r'\b', ar, out)
+        return out
+    text = re.sub(r'\bSelf::(\w+)\s*(<[^<>]*>)?', sub_assoc, text)
+    text = re.sub(r'\bSelf\b(?!\s*::)', self_ty, text)
+    log.append('R7 associated types of the trait impl substituted by their definitions in that impl; emitted as a free fn')
+    return text
+
+
 def process_fn(src_obj, containers, name, opts, subs, log):
     s, e, ob, in_trait_impl = src_obj.locate(containers, 'fn', name)
     text = src_obj.src[s:e]
@@ -486,6 +527,8 @@ def process_fn(src_obj, containers, name, opts, subs, log):
     elif in_trait_impl:
         text = re.sub(r'^(\s*)pub(\s*\([^)]*\))?\s+', r'\1', text, count=1)
     text = rule_get_unchecked(text, log)
+    if any(kind == 'assoc' for kind, _, _ in subs):
+        text = rule_assoc(src_obj, containers, s, text, log, name)
     head, body = split_fn(text)
     for kind, arg, lines in subs:
         if kind == 'rename':
